@@ -24,7 +24,7 @@ pub struct TempDir {
 impl TempDir {
   pub fn new(tag: &str) -> TempDir {
     let n = COUNTER.fetch_add(1, Ordering::SeqCst);
-    let path = Path::new(crate::engine::VERIF)
+    let path = crate::engine::verif_root()
       .join(".work")
       .join(format!("{}-{}-{}", std::process::id(), tag, n));
     let _ = std::fs::remove_dir_all(&path);
@@ -53,7 +53,7 @@ impl Drop for TempDir {
 }
 
 pub fn cleanup_work_root() {
-  let root = Path::new(crate::engine::VERIF).join(".work");
+  let root = crate::engine::verif_root().join(".work");
   if let Ok(rd) = std::fs::read_dir(&root) {
     let me = format!("{}-", std::process::id());
     for e in rd.flatten() {
